@@ -82,6 +82,13 @@ class ShoutingNode(Node):
         return f"{self.data}".upper() + "!"
 
 
+class _Key(int):
+    """an int subclass (as IntEnum / IntFlag members are)"""
+
+    def __repr__(self):
+        return f"_Key({int(self)})"
+
+
 def make_tree(case):
     """(tree, id-function of the tree's documented data_id rule)."""
     fln, typed = case.get("flavour", "str"), bool(case.get("typed"))
@@ -263,6 +270,8 @@ def check_queries(tree, rec, idf=hash, rebuild=None, nt=True):
             if not any(type(key) is type(x) and key == x for x in keys):
                 keys.append(key)
     keys += ["absent-key", 99999, 1001, 1002]
+    # integers that are not plain ints (an int subclass / IntEnum-like key, a bool): still node_id first
+    keys += [_Key(k) for k in list(keys) if type(k) is int and -10**6 < k < 10**6][:6] + [True, False]
 
     def ref_getitem(key):
         if isinstance(key, int):
